@@ -150,7 +150,7 @@ def _xsd(bits):
     return (
         '<xs:schema xmlns:xs="http://www.w3.org/2001/XMLSchema" targetNamespace="urn:t" xmlns="urn:t" elementFormDefault="qualified">'
         '<xs:element name="root" type="A"/><xs:element name="other" type="C"/><xs:element name="seq" type="S"/>'
-        '<xs:complexType name="S"><xs:sequence maxOccurs="3"><xs:element name="k" type="xs:string"/><xs:choice><xs:element name="p" type="xs:int"/><xs:element name="q" type="xs:string"/></xs:choice></xs:sequence></xs:complexType>'
+        '<xs:complexType name="S"><xs:sequence maxOccurs="3"><xs:element name="k" type="xs:string"/><xs:choice><xs:element name="p" type="xs:int"/><xs:element name="q" type="xs:string"/><xs:element name="r" type="xs:token"/><xs:element name="t" type="xs:long"/></xs:choice></xs:sequence></xs:complexType>'
         '<xs:simpleType name="U"><xs:union memberTypes="xs:string xs:int xs:boolean xs:decimal xs:float"/></xs:simpleType>'
         + "".join(types)
         + "</xs:schema>"
